@@ -23,8 +23,9 @@ CLAIMED = {
             "call leaves the world untouched. The model is tied to the code by differential execution after every call (exhaustive depth-1/2 over "
             "18 seed states + seeded random histories) and by a model-free oracle evaluating the statement on the real objects.",
             "Scope: default identity equality; well-typed arguments.", "DESIGN.md 3/C01"),
-    "C02": ("Lean 4 proof: invariant USym over all histories + M=S refinement of the mutually recursive membership methods; correspondence after every call",
-            "Theorems C02_all_histories (symmetric, duplicate-free after every prefix of every history, nesting and self-membership included since "
+    "C02": ("Lean 4 proof: invariant USym over all histories + M=S refinement of the mutually recursive membership methods; the complete one-step transition table of a 2x2 pool (every state the real code reaches) regenerated on every run and re-proved equal to the model by kernel evaluation; correspondence after every call",
+            "Regenerated on every run (720 rows = the 45 states — four ORDERED membership lists — that the real code reaches from the empty one x 16 calls from either side): C02_uni_impl_eq_model (raises or not, and the "
+            "four lists afterwards, are the model's), C02_uni_impl_eq_spec (symmetric, duplicate-free), C02_uni_table_complete, by decide +kernel. Theorems C02_all_histories (symmetric, duplicate-free after every prefix of every history, nesting and self-membership included since "
             "universes are ordinary ids), C02_remove_nonmember (ValueError, nothing changes), C02_add_appends / C02_remove_keeps_order / C02_frame "
             "(insertion order), C02_ctor_dedup. Correspondence: all interleavings of the four calls and two constructors to depth 2/3 + random.",
             "Scope: vertices only (Link objects have no symmetric membership).", "DESIGN.md 3/C02"),
